@@ -54,7 +54,12 @@ def method_stubs(P, cls_qual, names, extra=None):
                         env[p] = defaults[p]
                     else:
                         raise interp.Unknown(f'argument {p} of {name}')
-            sub = interp.Machine(env, m.stubs, m.resolver)
+            # (the globals of a method are those of the module of its
+            # class, whichever module the caller is in)
+            res = m.resolver
+            if hasattr(res, 'module'):
+                res = res.module(cls_qual.rsplit('.', 1)[0]) or res
+            sub = interp.Machine(env, m.stubs, res)
             sub.steps = m.steps
             if is_gen:
                 sub.yields = []
@@ -1107,6 +1112,13 @@ class ClassStubs(dict):
         """Given by the model itself (not found as a method)."""
         return name in self._explicit
 
+    def is_property(self, name):
+        if name in self._explicit or name in self.skip:
+            return False
+        f = self.P.func(f'{self.cls}.{name}', required=False)
+        return f is not None and any(
+            au.src(d) == 'property' for d in f.node.decorator_list)
+
     def _resolve(self, name):
         if dict.__contains__(self, name):
             return True
@@ -1860,6 +1872,114 @@ def pickle_roundtrip_model(P, R):
     return n
 
 
+def pickle_corrupt_model(P, R):
+    """`BDD.load` interpreted on files whose contents are not what the
+    writer produces (a variable at a level outside 0..n-1 of the file, at
+    the first and at the last position of the table; a negative level; an
+    edge to a node the file does not hold; no node table), into a fresh
+    manager and into one that holds nodes.  C17: when the call fails, the
+    manager is still reduced and consistent, its levels are still a
+    bijection onto 0..n-1 and every live reference denotes what it did."""
+    import itertools
+    load = P.func('dd.bdd.BDD.load')
+    resolver = interp.ModuleEnv(P, 'dd.bdd')
+    names = ['a', 'b', 'c']
+    rows = list(itertools.product((False, True), repeat=3))
+    funcs = [tuple(bool(a and not b) for a, b, c in rows),
+             tuple(bool(b if a else c) for a, b, c in rows)]
+    src, ext = _build_manager(['a', 'b', 'c'], funcs, [0, 1])
+    good = {'vars': {'a': 0, 'b': 1, 'c': 2},
+            'succ': copy.deepcopy(src['self._succ']),
+            'roots': sorted(ext)}
+
+    def edit(**kw):
+        d = copy.deepcopy(good)
+        d.update(kw)
+        return d
+    some = max(good['succ'])
+    i, v, w = good['succ'][some]
+    files = [
+        ('the variable c at level 5',
+         edit(vars={'a': 0, 'b': 1, 'c': 5})),
+        ('the variable a at level 7 (first in the table)',
+         edit(vars={'a': 7, 'b': 1, 'c': 2})),
+        ('a new variable w at level 5',
+         edit(vars={'a': 0, 'b': 1, 'c': 2, 'w': 5})),
+        ('the variable c at level -1',
+         edit(vars={'a': 0, 'b': 1, 'c': -1})),
+        (f'node {some} with an edge to the absent node 99',
+         edit(succ={**good['succ'], some: (i, v, 99)})),
+        ('no node table', {'vars': dict(good['vars']),
+                           'roots': list(good['roots'])}),
+    ]
+    lparams = [p for p in load.params if p != 'self']
+    problems = dict()
+    n = 0
+    try:
+        for fname, d in files:
+            for tname, tenv, text in (
+                    ('a fresh manager', _fresh_manager(), {}),
+                    ('a manager that holds nodes', copy.deepcopy(
+                        {k: v for k, v in src.items() if k != 'self'}),
+                     dict(ext))):
+                for levels in (True, False):
+                    n += 1
+                    tenv = copy.deepcopy(tenv)
+                    tenv['self'] = interp.Sym('self')
+                    tenv.setdefault('self.roots', set())
+                    live = {r: _tt_of(tenv, r, names) for r in text}
+
+                    def r_load(m, call, args, kw, d=d):
+                        return copy.deepcopy(d)
+                    stubs = ClassStubs(P, 'dd.bdd.BDD', extra={
+                        'open': lambda m, c, a, k: interp.Sym('file'),
+                        'load': r_load,
+                        '_request_reordering': lambda m, c, a, k: None},
+                        skip={'dump', 'load'})
+                    tenv[lparams[0]] = 'file.p'
+                    if len(lparams) > 1:
+                        tenv[lparams[1]] = levels
+                    out, m = interp.run_function(
+                        load.node, tenv, stubs, resolver)
+                    if out[0] != 'raise':
+                        continue
+                    what = (f'a file with {fname}, loaded into {tname} '
+                            f'with levels={levels}, is refused '
+                            f'({out[1]})')
+                    env = {k: v for k, v in m.env.items()
+                           if k.startswith('self.')}
+                    bad = _manager_complaints(env, dict(text))
+                    if bad is None:
+                        for r, t in live.items():
+                            if abs(r) not in env['self._succ'] or \
+                                    _tt_of(env, r, names) != t:
+                                bad = (f'the live reference {r} does '
+                                       'not denote what it did')
+                    if bad:
+                        problems.setdefault('corrupt-file', (
+                            f'{what} and leaves the manager changed: '
+                            f'{bad}'))
+    except (interp.Unknown, KeyError) as e:
+        R.undecided('R-RAW', load.qualname, 'corrupt-file model', str(e))
+        return None
+    for sub, msg in sorted(problems.items()):
+        R.violation('R-RAW', sub, load.qualname, 'load', msg,
+                    unit=load.unit.rel, line=load.lineno)
+    if not problems:
+        R.holds('R-RAW', load.qualname,
+                f'corrupt-file model ({n} loads of {len(files)} files): a '
+                'refused file leaves the manager reduced, consistent, with '
+                'levels 0..n-1 and every live reference unchanged')
+    return n
+
+
+def r_pickle_corrupt(P, R):
+    n = pickle_corrupt_model(P, R)
+    if n is not None:
+        R.floor('R-RAW loads of the corrupt-file model', n, 20)
+r_pickle_corrupt.NAME = 'R-RAW(corrupt-file model)'
+
+
 class _OrderModel:
     """A manager reduced to its variable order, for the functions that
     only drive `swap`: the size of the diagram is a fixed function of the
@@ -2602,22 +2722,22 @@ def operations_model(P, R, which=None):
                     (T[2], T[7], {'xp': 'x', 'yp': 'y'}, ['x', 'y']),
                     (T[0], 1, {'xp': 'x'}, ['x']),
                 ]
+                lv = {v: k for k, v in enumerate(order)}
                 for trans, source, mp, qv in cases:
-                    for forall in (False, True):
+                    # (the variables to quantify by name, and by level
+                    # with the renaming still by name: both are accepted)
+                    for qarg in (list(qv), [lv[q] for q in qv]):
                         obj = fresh(base)
                         out, _ = call(img, obj, [
-                            trans, source, dict(mp), list(qv), obj,
-                            forall], method=False)
+                            trans, source, dict(mp), qarg, obj,
+                            False], method=False)
                         conj = tuple(p and q for p, q in
                                      zip(tt[trans], tt[source]))
-                        if forall:
-                            conj = tuple((not q) or p for p, q in
-                                         zip(tt[trans], tt[source]))
-                            continue
                         want = ren(quant(conj, qv, False), mp)
                         check((img, 'image'),
                               f'order {order}: image(trans={trans}, '
-                              f'source={source}, rename={mp}, qvars={qv})',
+                              f'source={source}, rename={mp}, '
+                              f'qvars={qarg})',
                               obj, ext, names, out, want)
                 pcases = [
                     (T[0], T[4], {'x': 'xp'}, ['xp']),
@@ -2629,7 +2749,6 @@ def operations_model(P, R, which=None):
                 ]
                 # (preimage: adjacency of each pair is a documented
                 # precondition; image accepts any order)
-                lv = {v: k for k, v in enumerate(order)}
                 for trans, target, mp, qv in pcases:
                     if any(abs(lv[a] - lv[b]) != 1 for a, b in mp.items()):
                         continue
@@ -3319,6 +3438,830 @@ def r_bdd_to_mdd(P, R):
     if n is not None:
         R.floor('R-DOMAIN calls of the conversion model', n, 30)
 r_bdd_to_mdd.NAME = 'R-DOMAIN(bdd_to_mdd model)'
+
+
+def declare_model(P, R):
+    """`declare(*names)` of `dd.bdd.BDD` and of `dd.autoref.BDD`
+    interpreted (with `add_var` and what it calls) on managers with zero
+    to two variables for argument lists with new names, declared names
+    and a name given twice.  C14: no valid list is refused; declared
+    names keep their levels; each new name gets the next bottom level in
+    the order of the call; the tables stay a bijection with the terminal
+    below all variables; the function of an existing reference does not
+    change."""
+    stubs = ClassStubs(P, 'dd.bdd.BDD', extra={
+        '_request_reordering': lambda m, c, a, k: None})
+    arglists = [(), ('a',), ('c',), ('c', 'd'), ('c', 'c'),
+                ('a', 'c', 'a'), ('c', 'a', 'd', 'c'), ('b', 'a')]
+    problems = dict()
+    n = 0
+    try:
+        for qual, modname in (('dd.bdd.BDD.declare', 'dd.bdd'),
+                              ('dd.autoref.BDD.declare', 'dd.autoref')):
+            f = P.func(qual)
+            resolver = interp.ModuleEnv(P, modname, stubs)
+            va = f.node.args.vararg
+            if va is None:
+                raise interp.Unknown(f'{qual} without *names')
+            for order, tables in (([], []), (['a'], []),
+                                  (['a', 'b'], []),
+                                  (['b', 'a'],
+                                   [(False, False, False, True)])):
+                for names in arglists:
+                    n += 1
+                    base, ext = _build_manager(
+                        order, tables, range(len(tables)))
+                    obj = _object_manager(copy.deepcopy(
+                        {k: v for k, v in base.items() if k != 'self'}))
+                    before = {r: _tt_obj(obj, r, sorted(order))
+                              for r in ext}
+                    if modname == 'dd.autoref':
+                        me = interp.Sym('autoref manager', {
+                            '_bdd': obj, 'vars': obj.attrs['vars']})
+                        me.cls = resolver('BDD')
+                    else:
+                        me = obj
+                    out, _ = interp.run_function(
+                        f.node, {'self': me, va.arg: tuple(names)},
+                        stubs, resolver)
+                    want = {v: k for k, v in enumerate(order)}
+                    for x in names:
+                        want.setdefault(x, len(want))
+                    what = (f'variables {dict((v, k) for k, v in enumerate(order))}: '
+                            f'declare{names}')
+                    if out[0] == 'raise':
+                        problems.setdefault((f, 'refuses-valid'), (
+                            f'{what}: raises {out[1]}'))
+                        continue
+                    got = obj.attrs['vars']
+                    if got != want:
+                        problems.setdefault((f, 'levels'), (
+                            f'{what}: the manager has {got}, expected '
+                            f'{want} (declared names keep their level, '
+                            'each new name takes the next bottom level)'))
+                        continue
+                    env = {f'self.{k}': v for k, v in obj.attrs.items()}
+                    bad = _manager_complaints(env, dict(ext))
+                    if bad:
+                        problems.setdefault((f, 'tables'), f'{what}: {bad}')
+                        continue
+                    for r in ext:
+                        if _tt_obj(obj, r, sorted(order)) != before[r]:
+                            problems.setdefault((f, 'function'), (
+                                f'{what}: the function of the reference '
+                                f'{r} changed'))
+    except (interp.Unknown, KeyError) as e:
+        R.undecided('R-RAW', 'declare', 'declaration model', str(e))
+        return None
+    for (f, sub), msg in sorted(problems.items(),
+                                key=lambda kv: (kv[0][0].qualname, kv[0][1])):
+        R.violation('R-RAW', f'declare-{sub}', f.qualname, 'declare', msg,
+                    unit=f.unit.rel, line=f.lineno)
+    if not problems:
+        R.holds('R-RAW', 'declare (dd.bdd, dd.autoref)',
+                f'declaration model ({n} calls): every list of names is '
+                'accepted, also with a name twice or declared before; '
+                'levels, tables and existing functions as C14 gives them')
+    return n
+
+
+def r_declare(P, R):
+    n = declare_model(P, R)
+    if n is not None:
+        R.floor('R-RAW calls of the declaration model', n, 40)
+r_declare.NAME = 'R-RAW(declare model)'
+
+
+class _Handle:
+    """An operand that is a handle on the `dd.autoref` side and a node
+    number on the `dd.bdd` side of the sibling model."""
+
+    def __init__(self, u):
+        self.u = u
+
+    def __repr__(self):
+        return f'<node {self.u}>'
+
+
+def _sibling_cases(r, order):
+    H = _Handle
+    return [
+        ('var', ['a']), ('var', ['c']),
+        ('ite', [H(r[2]), H(r[5]), H(r[7])]),
+        ('ite', [H(r[3]), H(r[4]), H(-1)]),
+        ('let', [{'a': True, 'c': False}, H(r[4])]),
+        ('let', [{'a': H(r[3]), 'b': H(r[6])}, H(r[4])]),
+        ('let', [{'c': H(r[2])}, H(r[7])]),
+        ('let', [{'a': 'b', 'b': 'a'}, H(r[6])]),
+        ('let', [{'c': 'a'}, H(r[4])]),
+        ('let', [{}, H(r[6])]),
+        ('quantify', [H(r[4]), {'a'}]),
+        ('quantify', [H(r[6]), ['a', 'c'], True]),
+        ('forall', [{'b'}, H(r[6])]),
+        ('forall', [['a'], H(r[5])]),
+        ('exist', [['b', 'c'], H(r[3])]),
+        ('exist', [{'a'}, H(r[6])]),
+        ('apply', ['and', H(r[2]), H(r[5])]),
+        ('apply', ['=>', H(r[4]), H(r[7])]),
+        ('apply', ['ite', H(r[2]), H(r[5]), H(r[6])]),
+        ('apply', ['not', H(r[5])]),
+        ('cube', [{'a': True, 'c': False}]),
+        ('support', [H(r[4])]), ('support', [H(r[6]), True]),
+        ('count', [H(r[4]), 3]), ('count', [H(r[5])]),
+        ('count', [H(r[3]), 4]),
+        ('pick_iter', [H(r[4])]),
+        ('pick_iter', [H(r[2]), {'a', 'b', 'c'}]),
+        ('succ', [H(r[4])]), ('succ', [H(r[7])]), ('succ', [H(r[3])]),
+        ('to_expr', [H(r[5])]), ('to_expr', [H(r[2])]),
+        ('_add_int', [r[4]]), ('_add_int', [-abs(r[6])]),
+        ('level_of_var', ['b']), ('var_at_level', [2]),
+        ('var_levels', []),
+        ('add_var', ['d']), ('add_var', ['b', order.index('b')]),
+        ('incref', [H(r[4])]), ('decref', [H(r[4])]),
+        ('collect_garbage', []),
+        ('__len__', []), ('__contains__', [H(r[4])]),
+        ('true', []), ('false', []),
+        ('find_or_add', ['a', H(-1), H(r[4])]),
+        ('find_or_add', ['b', H(r[7]), H(1)]),
+    ]
+
+
+def autoref_sibling_model(P, R):
+    """Every method that `dd.autoref.BDD` shares with `dd.bdd.BDD`,
+    interpreted on both sides - handles, the handle class and the
+    wrapping manager on one, node numbers on the other - from the same
+    small manager, two variable orders.  The two must agree: the same
+    outcome (value or exception); where one gives a handle, the other
+    gives a reference to the same function, and the handle belongs to
+    the wrapping manager and owns a count; plain values equal; the
+    functions of the live references unchanged; for the methods that
+    only change the manager, the same variables, nodes and counts."""
+    import itertools
+    stubs = ClassStubs(P, 'dd.bdd.BDD', extra={
+        '_request_reordering': lambda m, c, a, k: None})
+    res_a = interp.ModuleEnv(P, 'dd.autoref', stubs)
+    res_b = res_a.module('dd.bdd')
+    names = ['a', 'b', 'c']
+    rows = list(itertools.product((False, True), repeat=3))
+    tts = [tuple(bool(a and b) for a, b, c in rows),
+           tuple(bool(a != c) for a, b, c in rows),
+           tuple(bool(b if a else c) for a, b, c in rows),
+           tuple(bool(not c) for a, b, c in rows)]
+    problems = dict()
+    undecided = dict()
+    n = 0
+    state_only = {'incref', 'decref', 'collect_garbage', 'add_var'}
+    try:
+        fcls = res_a('Function')
+        bcls = res_a('BDD')
+    except KeyError as e:
+        R.undecided('R-ARGS', 'dd.autoref.BDD', 'sibling model', str(e))
+        return None
+    for order in (['a', 'b', 'c'], ['c', 'a', 'b']):
+        base, ext = _build_manager(order, tts, range(len(tts)))
+        roots = sorted(ext)
+        refs = [1, -1] + [s * u for u in roots for s in (1, -1)]
+        for name, args in _sibling_cases(refs, order):
+            fa = P.func(f'dd.autoref.BDD.{name}', required=False)
+            fb = P.func(f'dd.bdd.BDD.{name}', required=False)
+            if fa is None or fb is None:
+                continue
+            obj_a = _object_manager(copy.deepcopy(
+                {k: v for k, v in base.items() if k != 'self'}))
+            obj_b = _object_manager(copy.deepcopy(
+                {k: v for k, v in base.items() if k != 'self'}))
+            wrapper = interp.Sym('autoref manager', {
+                '_bdd': obj_a, 'vars': obj_a.attrs['vars']})
+            wrapper.cls = bcls
+            given = []
+
+            def conv(x, side):
+                if isinstance(x, _Handle):
+                    if side == 'B':
+                        return x.u
+                    h = interp.Sym('Function', {
+                        'node': x.u, 'bdd': wrapper, 'manager': obj_a})
+                    h.cls = fcls
+                    given.append(h)
+                    return h
+                if isinstance(x, dict):
+                    return {k: conv(v, side) for k, v in x.items()}
+                if isinstance(x, list):
+                    return [conv(v, side) for v in x]
+                return copy.deepcopy(x)
+
+            def run(f, args, side, me):
+                a = f.node.args
+                ps = [x.arg for x in a.posonlyargs + a.args][1:]
+                res = res_a if side == 'A' else res_b
+                env = {'self': me}
+                m0 = interp.Machine({}, None, res)
+                for p_, d in zip(ps[len(ps) - len(a.defaults):],
+                                 a.defaults):
+                    env[p_] = m0.ev(d)
+                for p_, v in zip(ps, args):
+                    env[p_] = conv(v, side)
+                if a.kwarg:
+                    env[a.kwarg.arg] = {}
+                if a.vararg:
+                    env[a.vararg.arg] = ()
+                gen = any(isinstance(x, (ast.Yield, ast.YieldFrom))
+                          for x in au.walk_no_defs(f.node))
+                if gen:
+                    out, _ = interp.run_generator(f.node, env, stubs, res)
+                    return ('return' if out[0] == 'yield' else out[0],
+                            out[1])
+                out, _ = interp.run_function(f.node, env, stubs, res)
+                if out[0] == 'fall':
+                    return ('return', None)
+                return out
+            args_b = list(args)
+            if name == 'find_or_add':
+                # (the one signature that differs: a name for a level)
+                args_b = [order.index(args[0])] + args[1:]
+            what = (f'order {order}: {name}(' + ', '.join(
+                repr(x) for x in args) + ')')
+            try:
+                out_a = run(fa, args, 'A', wrapper)
+                out_b = run(fb, args_b, 'B', obj_b)
+            except interp.Unknown as e:
+                undecided.setdefault(name, str(e))
+                continue
+            n += 1
+            if out_a[0] != out_b[0] or (
+                    out_a[0] == 'raise' and out_a[1] != out_b[1]):
+                problems.setdefault((fa, 'outcome'), (
+                    f'{what}: dd.autoref gives {out_a[0]} '
+                    f'{out_a[1]!r} where dd.bdd gives {out_b[0]} '
+                    f'{out_b[1]!r}'))
+                continue
+            if out_a[0] == 'raise':
+                continue
+
+            def differ(x, y):
+                if hasattr(x, '__next__') or hasattr(y, '__next__'):
+                    x, y = list(x), list(y)
+                if isinstance(x, interp.Sym) and getattr(
+                        x, 'cls', None) is fcls:
+                    if not isinstance(y, int) or isinstance(y, bool):
+                        return f'a handle where dd.bdd gives {y!r}'
+                    u = x.attrs.get('node')
+                    if not isinstance(u, int) or abs(u) not in \
+                            obj_a.attrs['_succ']:
+                        return f'a handle on {u!r}, not a node'
+                    if _tt_obj(obj_a, u, names) != _tt_obj(
+                            obj_b, y, names):
+                        return (f'a handle on node {u}, which does not '
+                                f'denote the function of the reference '
+                                f'{y} that dd.bdd gives (nodes '
+                                f'{obj_a.attrs["_succ"]} / '
+                                f'{obj_b.attrs["_succ"]})')
+                    if x.attrs.get('bdd') is not wrapper:
+                        return ('a handle that does not belong to the '
+                                'manager it was asked of')
+                    if not any(x is g for g in given) and \
+                            obj_a.attrs['_ref'].get(abs(u), 0) < \
+                            obj_b.attrs['_ref'].get(abs(y), 0) + 1 and \
+                            obj_a.attrs['_succ'] == obj_b.attrs['_succ']:
+                        return (f'a new handle on node {u} that owns no '
+                                'count')
+                    return None
+                if isinstance(x, (tuple, list)) and isinstance(
+                        y, (tuple, list)):
+                    if len(x) != len(y):
+                        return f'{x!r} where dd.bdd gives {y!r}'
+                    for p_, q_ in zip(x, y):
+                        d = differ(p_, q_)
+                        if d:
+                            return d
+                    return None
+                if isinstance(x, dict) and isinstance(y, dict) and \
+                        set(x) == set(y):
+                    for k in x:
+                        d = differ(x[k], y[k])
+                        if d:
+                            return d
+                    return None
+                if isinstance(x, interp.Sym) or isinstance(y, interp.Sym):
+                    return f'{x!r} where dd.bdd gives {y!r}'
+                return None if x == y else (
+                    f'{x!r} where dd.bdd gives {y!r}')
+            d = differ(out_a[1], out_b[1])
+            if d:
+                problems.setdefault((fa, 'result'), f'{what} returns {d}')
+                continue
+            for r_ in roots:
+                if abs(r_) not in obj_a.attrs['_succ'] or _tt_obj(
+                        obj_a, r_, names) != _tt_of(base, r_, names):
+                    problems.setdefault((fa, 'live'), (
+                        f'{what}: the live reference {r_} does not '
+                        'denote what it did'))
+                    break
+            if name in state_only:
+                for attr in ('vars', '_succ', '_ref'):
+                    if obj_a.attrs[attr] != obj_b.attrs[attr]:
+                        problems.setdefault((fa, 'state'), (
+                            f'{what}: {attr} = {obj_a.attrs[attr]} '
+                            f'where dd.bdd leaves {obj_b.attrs[attr]}'))
+                        break
+    for name, why in sorted(undecided.items()):
+        R.undecided('R-ARGS', f'dd.autoref.BDD.{name}', 'sibling model',
+                    why)
+    for (f, sub), msg in sorted(problems.items(),
+                                key=lambda kv: (kv[0][0].qualname, kv[0][1])):
+        R.violation('R-ARGS', f'sibling-{sub}', f.qualname, f.name, msg,
+                    unit=f.unit.rel, line=f.lineno)
+    if not problems:
+        R.holds('R-ARGS', 'dd.autoref.BDD / dd.bdd.BDD',
+                f'sibling model ({n} calls interpreted on both sides): '
+                'same outcome, handles on the same functions that belong '
+                'to the manager and own a count, equal plain values, '
+                'live references unchanged')
+    return n
+
+
+def r_autoref_siblings(P, R):
+    n = autoref_sibling_model(P, R)
+    if n is not None:
+        R.floor('R-ARGS calls of the sibling model', n, 80)
+r_autoref_siblings.NAME = 'R-ARGS(autoref sibling model)'
+
+
+def function_views_model(P, R):
+    """The read-only views of `dd.autoref.Function` evaluated by the
+    interpreter for every reference of small managers (both signs, the
+    constants): C18 - expanding on `u.var` with `u.high` / `u.low` and
+    applying `u.negated` reproduces `u`; `u.level` is the level of
+    `u.var`; `len(u)` and `u.dag_size` count the nodes reachable from
+    `u`; `u.support` are the variables `u` depends on; `u.ref` is the
+    count of the node; `int(u)` the reference; a copy is a new handle on
+    the same node."""
+    import itertools
+    stubs = ClassStubs(P, 'dd.bdd.BDD', extra={
+        '_request_reordering': lambda m, c, a, k: None})
+    resolver = interp.ModuleEnv(P, 'dd.autoref', stubs)
+    names = ['a', 'b', 'c']
+    rows = list(itertools.product((False, True), repeat=3))
+    tts = [tuple(bool(a and not b) for a, b, c in rows),
+           tuple(bool(b if a else c) for a, b, c in rows),
+           tuple(bool(a != c) for a, b, c in rows),
+           tuple(bool(c) for a, b, c in rows)]
+    fq = 'dd.autoref.Function'
+    problems = dict()
+    undecided = dict()
+    n = 0
+    try:
+        fcls = resolver('Function')
+        bcls = resolver('BDD')
+    except KeyError as e:
+        R.undecided('R-ROLE', fq, 'views model', str(e))
+        return None
+
+    def expr(text):
+        return ast.parse(text, mode='eval').body
+    views = {k: expr(v) for k, v in {
+        'var': 'h.var', 'level': 'h.level', 'low': 'h.low',
+        'high': 'h.high', 'negated': 'h.negated', '__len__': 'len(h)',
+        'dag_size': 'h.dag_size', 'support': 'h.support', 'ref': 'h.ref',
+        '__int__': 'h.__int__()', '__copy__': 'h.__copy__()',
+        '__hash__': 'h.__hash__()'}.items()}
+    for order in (['a', 'b', 'c'], ['c', 'a', 'b']):
+        base, ext = _build_manager(order, tts, range(len(tts)))
+        lv = {v: k for k, v in enumerate(order)}
+        for u0 in sorted(base['self._succ']):
+            for u in (u0, -u0):
+                obj = _object_manager(copy.deepcopy(
+                    {k: v for k, v in base.items() if k != 'self'}))
+                wrapper = interp.Sym('autoref manager', {
+                    '_bdd': obj, 'vars': obj.attrs['vars']})
+                wrapper.cls = bcls
+                h = interp.Sym('Function', {
+                    'node': u, 'bdd': wrapper, 'manager': obj})
+                h.cls = fcls
+                got = dict()
+                for k, e in views.items():
+                    if interp.Machine({}, stubs, resolver).method_of(
+                            h, k) is None:
+                        continue
+                    try:
+                        got[k] = ('value', interp.Machine(
+                            {'h': h}, stubs, resolver).ev(e))
+                    except interp.Raised as x:
+                        got[k] = ('raise', x.name)
+                    except interp.Unknown as x:
+                        undecided.setdefault(k, str(x))
+                n += 1
+                what = (f'order {order}, nodes {base["self._succ"]}: '
+                        f'the handle on {u}')
+                t_u = _tt_of(base, u, names)
+                succ = base['self._succ']
+
+                def bad(k, msg):
+                    problems.setdefault(k, f'{what}: {msg}')
+
+                def node_of(x):
+                    if isinstance(x, interp.Sym) and getattr(
+                            x, 'cls', None) is fcls:
+                        return x.attrs.get('node')
+                    return None
+                for k, (kind, v) in got.items():
+                    if kind == 'raise':
+                        bad(k, f'.{k} raises {v}')
+                if any(kind == 'raise' for kind, v in got.values()):
+                    continue
+                val = {k: v for k, (kind, v) in got.items()}
+                terminal = abs(u) == 1
+                if 'negated' in val and val['negated'] is not (u < 0):
+                    bad('negated', f'.negated is {val["negated"]!r}')
+                if 'level' in val and val['level'] != succ[abs(u)][0]:
+                    bad('level', f'.level is {val["level"]!r}, the node '
+                        f'is at level {succ[abs(u)][0]}')
+                if 'var' in val:
+                    want = None if terminal else order[succ[abs(u)][0]]
+                    if val['var'] != want:
+                        bad('var', f'.var is {val["var"]!r}, not {want!r}')
+                if all(k in val for k in ('low', 'high', 'var',
+                                          'negated')):
+                    lo, hi = node_of(val['low']), node_of(val['high'])
+                    if terminal:
+                        if val['low'] is not None or \
+                                val['high'] is not None:
+                            bad('low', 'a constant has successors '
+                                f'{val["low"]!r}, {val["high"]!r}')
+                    elif not (isinstance(lo, int) and isinstance(hi, int)
+                              and abs(lo) in succ and abs(hi) in succ
+                              and val['var'] in names):
+                        bad('low', f'.low / .high are {val["low"]!r}, '
+                            f'{val["high"]!r}')
+                    else:
+                        t_lo = _tt_of(base, lo, names)
+                        t_hi = _tt_of(base, hi, names)
+                        k_ = names.index(val['var'])
+                        rebuilt = tuple(
+                            (t_hi[i] if r[k_] else t_lo[i])
+                            != bool(val['negated'])
+                            for i, r in enumerate(rows))
+                        if rebuilt != t_u:
+                            bad('low', 'if .var then .high else .low, '
+                                'complemented when .negated, with .var = '
+                                f'{val["var"]!r}, .high on {hi}, .low on '
+                                f'{lo}, .negated = {val["negated"]!r}, is '
+                                'not the function of the handle')
+                reach, todo = {1}, [abs(u)]
+                while todo:
+                    x = todo.pop()
+                    if x in reach:
+                        continue
+                    reach.add(x)
+                    todo += [abs(succ[x][1]), abs(succ[x][2])]
+                for k in ('__len__', 'dag_size'):
+                    if k in val and val[k] != len(reach):
+                        bad(k, f'{k} gives {val[k]!r}; {len(reach)} nodes '
+                            'are reachable (the terminal included)')
+                if 'support' in val:
+                    dep = {x for j, x in enumerate(names) if any(
+                        t_u[i] != t_u[rows.index(
+                            r[:j] + (not r[j],) + r[j + 1:])]
+                        for i, r in enumerate(rows))}
+                    if val['support'] != dep:
+                        bad('support', f'.support is {val["support"]!r}; '
+                            f'the function depends on {sorted(dep)}')
+                if 'ref' in val and val['ref'] != base['self._ref'][abs(u)]:
+                    bad('ref', f'.ref is {val["ref"]!r}; the count of the '
+                        f'node is {base["self._ref"][abs(u)]}')
+                if '__int__' in val and val['__int__'] != u:
+                    bad('__int__', f'int() gives {val["__int__"]!r}')
+                if '__hash__' in val and not isinstance(
+                        val['__hash__'], int):
+                    bad('__hash__', f'hash() gives {val["__hash__"]!r}')
+                if '__copy__' in val:
+                    c = val['__copy__']
+                    if node_of(c) != u or c is h or \
+                            c.attrs.get('bdd') is not wrapper:
+                        bad('__copy__', 'a copy is not a new handle on '
+                            'the same node of the same manager')
+    for k, why in sorted(undecided.items()):
+        R.undecided('R-ROLE', f'{fq}.{k}', 'views model', why)
+    for k, msg in sorted(problems.items()):
+        f = P.func(f'{fq}.{k}', required=False)
+        R.violation('R-ROLE', 'view', f'{fq}.{k}', k, msg,
+                    unit=f.unit.rel if f else 'dd/autoref.py',
+                    line=f.lineno if f else None)
+    if not problems:
+        R.holds('R-ROLE', fq,
+                f'views model ({n} handles, {len(views)} views each): the '
+                'expansion on var / high / low / negated reproduces the '
+                'function; level, size, support, count and copy as C18 '
+                'gives them')
+    return n
+
+
+def r_function_views(P, R):
+    n = function_views_model(P, R)
+    if n is not None:
+        R.floor('R-ROLE handles of the views model', n, 20)
+r_function_views.NAME = 'R-ROLE(Function views model)'
+
+
+def copy_model(P, R):
+    """Copying between managers interpreted with everything it calls:
+    `dd.bdd.BDD.copy` / `dd.bdd.copy_bdd` on node numbers, and
+    `dd._copy.copy_bdd` / `copy_bdds_from` on handles of `dd.autoref`
+    (one memo shared by several roots), from a manager over a, b, c
+    into managers with another variable order, with a further variable,
+    and with nodes of their own.  C11: the result denotes, by variable
+    name, the function that was copied; it belongs to the target; the
+    target stays reduced and consistent; its own references keep their
+    functions; the source is untouched."""
+    import itertools
+    stubs = ClassStubs(P, 'dd.bdd.BDD', extra={
+        '_request_reordering': lambda m, c, a, k: None})
+    res_b = interp.ModuleEnv(P, 'dd.bdd', stubs)
+    res_c = res_b.module('dd._copy')
+    res_a = res_b.module('dd.autoref')
+    names = ['a', 'b', 'c']
+    rows = list(itertools.product((False, True), repeat=3))
+    tts = [tuple(bool(a and not b) for a, b, c in rows),
+           tuple(bool(b if a else c) for a, b, c in rows),
+           tuple(bool(a != c) for a, b, c in rows),
+           tuple(bool(c) for a, b, c in rows)]
+    rows4 = list(itertools.product((False, True), repeat=4))
+    own = [tuple(bool(b and d) for a, b, c, d in rows4)]
+    problems = dict()
+    n = 0
+    cb = P.func('dd.bdd.copy_bdd')
+    meth = P.func('dd.bdd.BDD.copy')
+    c1 = P.func('dd._copy.copy_bdd', required=False)
+    cm = P.func('dd._copy.copy_bdds_from', required=False)
+
+    def fresh(env):
+        return _object_manager(copy.deepcopy(
+            {k: v for k, v in env.items() if k != 'self'}))
+
+    def targets():
+        t1, e1 = _build_manager(['c', 'a', 'b'], [], [])
+        t2, e2 = _build_manager(['b', 'd', 'c', 'a'], own, [0])
+        t3, e3 = _build_manager(['a', 'b', 'c'], [tts[2]], [0])
+        return [('the order c, a, b', t1, e1, ['a', 'b', 'c']),
+                ('the order b, d, c, a and a node of its own', t2, e2,
+                 ['a', 'b', 'c', 'd']),
+                ('the same order and a node of its own', t3, e3,
+                 ['a', 'b', 'c'])]
+
+    def widen(t, tnames):
+        # the table of a function of a, b, c over the names of the target
+        trs = list(itertools.product((False, True), repeat=len(tnames)))
+        return tuple(t[rows.index(tuple(
+            dict(zip(tnames, r))[x] for x in names))] for r in trs)
+
+    def after(f, what, src0, src, tgt0, tgt, text, tnames, pairs):
+        for u, r in pairs:
+            if not isinstance(r, int) or isinstance(r, bool) or abs(
+                    r) not in tgt.attrs['_succ']:
+                problems.setdefault((f, 'raises'), (
+                    f'{what}: {u} comes back as {r!r}'))
+                return
+            if _tt_obj(tgt, r, tnames) != widen(
+                    _tt_of(src0, u, names), tnames):
+                problems.setdefault((f, 'wrong-function'), (
+                    f'{what}: the copy {r} of {u} does not denote the '
+                    'same function of the same-named variables (target '
+                    f'nodes {tgt.attrs["_succ"]}, levels '
+                    f'{tgt.attrs["vars"]})'))
+                return
+        if any(src.attrs[k] != src0['self.' + k]
+               for k in ('vars', '_succ', '_ref')):
+            problems.setdefault((f, 'source-changed'), (
+                f'{what}: the source manager changed'))
+            return
+        for r_ in text:
+            if abs(r_) not in tgt.attrs['_succ'] or _tt_obj(
+                    tgt, r_, tnames) != _tt_of(tgt0, r_, tnames):
+                problems.setdefault((f, 'target-live'), (
+                    f'{what}: the reference {r_} of the target does not '
+                    'denote what it did'))
+                return
+    try:
+        src0, sext = _build_manager(['a', 'b', 'c'], tts, range(len(tts)))
+        roots = sorted(sext)
+        refs = [1, -1] + [s_ * u for u in roots for s_ in (1, -1)]
+        for tname, tgt0, text, tnames in targets():
+            for u in refs:
+                for f in (cb, meth):
+                    n += 1
+                    src, tgt = fresh(src0), fresh(tgt0)
+                    ps = [p for p in f.params if p != 'self']
+                    if f is meth:
+                        env = {'self': src, ps[0]: u, ps[1]: tgt}
+                    else:
+                        env = {ps[0]: u, ps[1]: src, ps[2]: tgt}
+                    out, _ = interp.run_function(
+                        f.node, env, stubs, res_b)
+                    what = (f'{f.name}({u}) from nodes '
+                            f'{src0["self._succ"]} into a manager with '
+                            f'{tname}')
+                    if out[0] != 'return':
+                        problems.setdefault((f, 'raises'), (
+                            f'{what}: {out[0]} {out[1]!r}'))
+                        continue
+                    after(f, what, src0, src, tgt0, tgt, text, tnames,
+                          [(u, out[1])])
+                    env_t = {f'self.{k}': v for k, v in tgt.attrs.items()}
+                    bad = _manager_complaints(env_t, dict(text))
+                    if bad:
+                        problems.setdefault((f, 'target-tables'), (
+                            f'{what}: {bad}'))
+            if c1 is None or cm is None:
+                continue
+            fcls = res_a('Function')
+            bcls = res_a('BDD')
+            for rs in ([refs[2]], [refs[3], refs[4]],
+                       [refs[6], -1, refs[7], refs[2], refs[6]]):
+                for f in (c1, cm):
+                    n += 1
+                    src, tgt = fresh(src0), fresh(tgt0)
+                    ws = interp.Sym('autoref source', {
+                        '_bdd': src, 'vars': src.attrs['vars']})
+                    ws.cls = bcls
+                    wt = interp.Sym('autoref target', {
+                        '_bdd': tgt, 'vars': tgt.attrs['vars']})
+                    wt.cls = bcls
+                    hs = []
+                    for u in rs:
+                        h = interp.Sym('Function', {
+                            'node': u, 'bdd': ws, 'manager': src})
+                        h.cls = fcls
+                        hs.append(h)
+                    ps = list(f.params)
+                    what = (f'dd._copy.{f.name}({rs}) from nodes '
+                            f'{src0["self._succ"]} into a manager with '
+                            f'{tname}')
+                    if f is c1:
+                        env = {ps[0]: hs[0], ps[1]: wt}
+                        if len(ps) > 2:
+                            env[ps[2]] = None
+                    else:
+                        env = {ps[0]: list(hs), ps[1]: wt}
+                    out, _ = interp.run_function(
+                        f.node, env, stubs, res_c)
+                    got = out[1] if f is cm else [out[1]]
+                    if out[0] != 'return' or not isinstance(
+                            got, list) or not all(
+                                isinstance(x, interp.Sym) and x.attrs
+                                for x in got) or len(got) != (
+                                    len(rs) if f is cm else 1):
+                        problems.setdefault((f, 'raises'), (
+                            f'{what}: {out[0]} {out[1]!r}'))
+                        continue
+                    if any(x.attrs.get('bdd') is not wt for x in got):
+                        problems.setdefault((f, 'other-manager'), (
+                            f'{what}: a handle returned does not belong '
+                            'to the target'))
+                        continue
+                    # (the handles made on the way hold counts of the
+                    # source until they are dropped: counts are not
+                    # compared here)
+                    src.attrs['_ref'] = copy.deepcopy(src0['self._ref'])
+                    after(f, what, src0, src, tgt0, tgt, text, tnames,
+                          [(u, x.attrs.get('node'))
+                           for u, x in zip(rs, got)])
+    except (interp.Unknown, KeyError) as e:
+        R.undecided('R-DOMAIN', 'copy between managers', 'copy model',
+                    str(e))
+        return None
+    for (f, sub), msg in sorted(problems.items(),
+                                key=lambda kv: (kv[0][0].qualname, kv[0][1])):
+        R.violation('R-DOMAIN', f'copy-{sub}', f.qualname, f.name, msg,
+                    unit=f.unit.rel, line=f.lineno)
+    if not problems:
+        R.holds('R-DOMAIN', 'copy between managers',
+                f'copy model ({n} calls): the copy denotes the same '
+                'function of the same-named variables in the target, '
+                'whatever its order and contents; target consistent, '
+                'source untouched')
+    return n
+
+
+def r_copy(P, R):
+    n = copy_model(P, R)
+    if n is not None:
+        R.floor('R-DOMAIN calls of the copy model', n, 40)
+r_copy.NAME = 'R-DOMAIN(copy model)'
+
+
+def collect_model(P, R):
+    """`BDD.collect_garbage` interpreted (with `decref`) on managers that
+    hold garbage - nodes no outside reference reaches - for every choice
+    of which functions are referenced, with and without a list of roots
+    to start from.  C06: exactly the unreferenced nodes go; counts, the
+    unique table and the functions of the referenced nodes are what they
+    must be; the operation memo is emptied; the next free number is not
+    that of a node that stayed."""
+    import itertools
+    f = P.func('dd.bdd.BDD.collect_garbage')
+    stubs = ClassStubs(P, 'dd.bdd.BDD')
+    resolver = interp.ModuleEnv(P, 'dd.bdd', stubs)
+    names = ['a', 'b', 'c']
+    rows = list(itertools.product((False, True), repeat=3))
+    tts = [tuple(bool(a and not b) for a, b, c in rows),
+           tuple(bool(b if a else c) for a, b, c in rows),
+           tuple(bool(a != c) for a, b, c in rows),
+           tuple(bool(b or c) for a, b, c in rows)]
+    prm = [p for p in f.params if p != 'self']
+    problems = dict()
+    n = 0
+    try:
+        for order in (['a', 'b', 'c'], ['b', 'c', 'a']):
+            for k in range(len(tts) + 1):
+                for kept in itertools.combinations(range(len(tts)), k):
+                    base, ext = _build_manager(
+                        order, tts, list(kept), keep_garbage=True)
+                    succ0 = base['self._succ']
+                    live, todo = {1}, [abs(r) for r in ext]
+                    while todo:
+                        x = todo.pop()
+                        if x in live:
+                            continue
+                        live.add(x)
+                        todo += [abs(succ0[x][1]), abs(succ0[x][2])]
+                    dead = sorted(set(succ0) - live)
+                    tops = [u for u in dead if base['self._ref'][u] == 0]
+                    for roots in (None, list(tops), tops[:1]):
+                        n += 1
+                        obj = _object_manager(copy.deepcopy(
+                            {k_: v for k_, v in base.items()
+                             if k_ != 'self'}))
+                        out, _ = interp.run_function(
+                            f.node, {'self': obj, prm[0]: (
+                                list(roots) if roots is not None
+                                else None)}, stubs, resolver)
+                        what = (f'order {order}, nodes {succ0}, '
+                                f'referenced {sorted(ext)}: '
+                                f'collect_garbage({roots})')
+                        if out[0] == 'raise':
+                            problems.setdefault('raises', (
+                                f'{what}: raises {out[1]}'))
+                            continue
+                        left = set(obj.attrs['_succ'])
+                        if not live <= left:
+                            problems.setdefault('freed-live', (
+                                f'{what}: the node(s) '
+                                f'{sorted(live - left)} reachable from a '
+                                'reference are gone'))
+                            continue
+                        if roots is None or len(roots) == len(tops):
+                            if left != live:
+                                problems.setdefault('kept-garbage', (
+                                    f'{what}: the unreferenced node(s) '
+                                    f'{sorted(left - live)} stay'))
+                                continue
+                        elif roots and roots[0] in left:
+                            problems.setdefault('kept-garbage', (
+                                f'{what}: the unreferenced root '
+                                f'{roots[0]} stays'))
+                            continue
+                        env = {f'self.{k_}': v
+                               for k_, v in obj.attrs.items()}
+                        bad = _manager_complaints(env, dict(ext))
+                        if bad:
+                            problems.setdefault('tables', f'{what}: {bad}')
+                            continue
+                        for r_ in ext:
+                            if _tt_obj(obj, r_, names) != _tt_of(
+                                    base, r_, names):
+                                problems.setdefault('function', (
+                                    f'{what}: the reference {r_} does '
+                                    'not denote what it did'))
+                        if obj.attrs['_ite_table']:
+                            problems.setdefault('memo', (
+                                f'{what}: the operation memo still '
+                                f'holds {obj.attrs["_ite_table"]}'))
+                        mf = obj.attrs.get('_min_free')
+                        if mf in obj.attrs['_succ'] or not isinstance(
+                                mf, int) or mf < 2:
+                            problems.setdefault('next-free', (
+                                f'{what}: the next free number is {mf}, '
+                                'a node that stayed'))
+    except (interp.Unknown, KeyError) as e:
+        R.undecided('R-PAIR', f.qualname, 'collection model', str(e))
+        return None
+    for sub, msg in sorted(problems.items()):
+        R.violation('R-PAIR', f'collect-{sub}', f.qualname,
+                    'collect_garbage', msg, unit=f.unit.rel,
+                    line=f.lineno)
+    if not problems:
+        R.holds('R-PAIR', f.qualname,
+                f'collection model ({n} calls): exactly the unreferenced '
+                'nodes go, tables and counts consistent, referenced '
+                'functions unchanged, memo emptied')
+    return n
+
+
+def r_collect(P, R):
+    n = collect_model(P, R)
+    if n is not None:
+        R.floor('R-PAIR calls of the collection model', n, 60)
+r_collect.NAME = 'R-PAIR(collection model)'
 
 
 def dot_model(P, R):
